@@ -228,7 +228,7 @@ func findNode(n Node, path string, seen usesSeen) (Node, error) {
 		if mod.Kind() == "submodule" {
 			m := mod.Modules.Modules[mod.BelongsTo.Name]
 			if m == nil {
-				return nil, fmt.Errorf("%s: unknown module %s", m.Name, mod.BelongsTo.Name)
+				return nil, fmt.Errorf("%s: unknown module %s", mod.Name, mod.BelongsTo.Name)
 			}
 			if prefix == "" || prefix == mod.BelongsTo.Prefix.Name {
 				goto processing
@@ -242,6 +242,10 @@ func findNode(n Node, path string, seen usesSeen) (Node, error) {
 
 		for _, i := range mod.Import {
 			if prefix == i.Prefix.Name {
+				if i.Module == nil {
+					// The import was never resolved.
+					return nil, fmt.Errorf("%s: unknown module %s", mod.Name, i.Name)
+				}
 				n = i.Module
 				goto processing
 			}
